@@ -290,6 +290,11 @@ pub enum Fmt {
     MsgPack,
     MsgPackNamed,
     Json,
+    // second generation: the restored value serialised and restored once more in the same format
+    Bincode2,
+    MsgPack2,
+    MsgPackNamed2,
+    Json2,
 }
 impl Fmt {
     pub const ALL: [Fmt; 4] = [Fmt::Bincode, Fmt::MsgPack, Fmt::MsgPackNamed, Fmt::Json];
@@ -299,21 +304,33 @@ impl Fmt {
             Fmt::MsgPack => "msgpack",
             Fmt::MsgPackNamed => "msgpack-named",
             Fmt::Json => "json",
+            Fmt::Bincode2 => "bincode-gen2",
+            Fmt::MsgPack2 => "msgpack-gen2",
+            Fmt::MsgPackNamed2 => "msgpack-named-gen2",
+            Fmt::Json2 => "json-gen2",
+        }
+    }
+    pub fn gen2(self) -> Fmt {
+        match self {
+            Fmt::Bincode | Fmt::Bincode2 => Fmt::Bincode2,
+            Fmt::MsgPack | Fmt::MsgPack2 => Fmt::MsgPack2,
+            Fmt::MsgPackNamed | Fmt::MsgPackNamed2 => Fmt::MsgPackNamed2,
+            Fmt::Json | Fmt::Json2 => Fmt::Json2,
         }
     }
     pub fn ser<T: Serialize>(self, v: &T) -> Result<Vec<u8>, String> {
         match self {
-            Fmt::Bincode => bincode::serialize(v).map_err(|e| e.to_string()),
-            Fmt::MsgPack => rmp_serde::to_vec(v).map_err(|e| e.to_string()),
-            Fmt::MsgPackNamed => rmp_serde::to_vec_named(v).map_err(|e| e.to_string()),
-            Fmt::Json => serde_json::to_vec(v).map_err(|e| e.to_string()),
+            Fmt::Bincode | Fmt::Bincode2 => bincode::serialize(v).map_err(|e| e.to_string()),
+            Fmt::MsgPack | Fmt::MsgPack2 => rmp_serde::to_vec(v).map_err(|e| e.to_string()),
+            Fmt::MsgPackNamed | Fmt::MsgPackNamed2 => rmp_serde::to_vec_named(v).map_err(|e| e.to_string()),
+            Fmt::Json | Fmt::Json2 => serde_json::to_vec(v).map_err(|e| e.to_string()),
         }
     }
     pub fn de<T: DeserializeOwned>(self, b: &[u8]) -> Result<T, String> {
         match self {
-            Fmt::Bincode => bincode::deserialize(b).map_err(|e| e.to_string()),
-            Fmt::MsgPack | Fmt::MsgPackNamed => rmp_serde::from_slice(b).map_err(|e| e.to_string()),
-            Fmt::Json => serde_json::from_slice(b).map_err(|e| e.to_string()),
+            Fmt::Bincode | Fmt::Bincode2 => bincode::deserialize(b).map_err(|e| e.to_string()),
+            Fmt::MsgPack | Fmt::MsgPackNamed | Fmt::MsgPack2 | Fmt::MsgPackNamed2 => rmp_serde::from_slice(b).map_err(|e| e.to_string()),
+            Fmt::Json | Fmt::Json2 => serde_json::from_slice(b).map_err(|e| e.to_string()),
         }
     }
 }
@@ -396,8 +413,16 @@ pub fn roundtrip<T: Serialize + DeserializeOwned>(obs: &mut Obs, name: &str, ori
             }
             Ok(Ok(b)) => b,
         };
+        let mut second: Option<T> = None;
         match vengine::guard(|| fmt.ser(&back)) {
             Ok(Ok(again)) => {
+                // generation 2: what the restored value serialises to must restore again (adapters compare its behaviour too)
+                let f2 = fmt.gen2().name();
+                match vengine::guard(|| fmt.de::<T>(&again)) {
+                    Ok(Ok(b2)) => second = Some(b2),
+                    Ok(Err(e)) => obs.fail(format!("{name}:deserialize-error:{f2}"), format!("the restored value's own serialisation does not deserialise: {e}")),
+                    Err(p) => obs.fail(format!("{name}:deserialize-panic:{f2}"), format!("deserialising the restored value's serialisation panicked: {p}")),
+                }
                 if opts.stable_bytes {
                     obs.ensure(again == bytes, &format!("{name}:reserialize-differs:{f}"), || {
                         let at = again.iter().zip(bytes.iter()).position(|(a, b)| a != b).unwrap_or(again.len().min(bytes.len()));
@@ -418,6 +443,9 @@ pub fn roundtrip<T: Serialize + DeserializeOwned>(obs: &mut Obs, name: &str, ori
             Err(p) => obs.fail(format!("{name}:reserialize-panic:{f}"), format!("serialising the restored value panicked: {p}")),
         }
         out.push((fmt, back));
+        if let Some(b2) = second {
+            out.push((fmt.gen2(), b2));
+        }
     }
     out
 }
